@@ -6,6 +6,8 @@ import (
 	"strconv"
 	"strings"
 	"unsafe"
+
+	"github.com/tigerwill90/fox/internal/simplelru"
 )
 
 // This file only exists when the package is built with the `verif` tag. It exports read-only inspection helpers
@@ -253,3 +255,90 @@ func fmtAny(v any) string {
 	}
 	return "non-string panic value"
 }
+
+// VerifLRURun drives a fresh internal/simplelru cache of the given size - the cache type in which a write transaction
+// remembers the nodes it owns (tXn.writable) - through a list of operations separated by ';' and returns the answers,
+// one per operation, joined by ';':
+//
+//	A<k>:<v> Add -> 0|1 (evicted)      G<k> Get -> <v>|-        C<k> Contains -> 0|1     K<k> Peek -> <v>|-
+//	R<k> Remove -> 0|1                 O RemoveOldest -> <k>:<v>|-   P Purge -> .       Y Keys -> k+k+…|-   L Len -> n
+//	Z<n> Resize -> evicted count
+//
+// A panic ends the run; the answer of the panicking operation is "panic".
+func VerifLRURun(size int, ops string) (out string) {
+	var res []string
+	defer func() {
+		if v := recover(); v != nil {
+			res = append(res, "panic")
+			out = strings.Join(res, ";")
+		}
+	}()
+	c, err := simplelru.NewLRU[int, int](size, nil)
+	if err != nil {
+		return "newlru-error"
+	}
+	num := func(s string) int { n, _ := strconv.Atoi(s); return n }
+	b01 := func(b bool) string {
+		if b {
+			return "1"
+		}
+		return "0"
+	}
+	for _, op := range strings.Split(ops, ";") {
+		if op == "" {
+			continue
+		}
+		arg := op[1:]
+		switch op[0] {
+		case 'A':
+			k, v, _ := strings.Cut(arg, ":")
+			res = append(res, b01(c.Add(num(k), num(v))))
+		case 'G':
+			if v, ok := c.Get(num(arg)); ok {
+				res = append(res, strconv.Itoa(v))
+			} else {
+				res = append(res, "-")
+			}
+		case 'C':
+			res = append(res, b01(c.Contains(num(arg))))
+		case 'K':
+			if v, ok := c.Peek(num(arg)); ok {
+				res = append(res, strconv.Itoa(v))
+			} else {
+				res = append(res, "-")
+			}
+		case 'R':
+			res = append(res, b01(c.Remove(num(arg))))
+		case 'O':
+			if k, v, ok := c.RemoveOldest(); ok {
+				res = append(res, strconv.Itoa(k)+":"+strconv.Itoa(v))
+			} else {
+				res = append(res, "-")
+			}
+		case 'P':
+			c.Purge()
+			res = append(res, ".")
+		case 'Y':
+			ks := c.Keys()
+			if len(ks) == 0 {
+				res = append(res, "-")
+			} else {
+				parts := make([]string, len(ks))
+				for i, k := range ks {
+					parts[i] = strconv.Itoa(k)
+				}
+				res = append(res, strings.Join(parts, "+"))
+			}
+		case 'L':
+			res = append(res, strconv.Itoa(c.Len()))
+		case 'Z':
+			res = append(res, strconv.Itoa(c.Resize(num(arg))))
+		default:
+			res = append(res, "bad-op")
+		}
+	}
+	return strings.Join(res, ";")
+}
+
+// VerifWritableCacheSize is the capacity of the cache of a write transaction.
+func VerifWritableCacheSize() int { return defaultModifiedCache }
